@@ -51,7 +51,32 @@ func init() {
 	}
 
 	c16 := &tcProfile{Prop: "C16", Steps: [2]int{60, 200}, Faults: false, Challenge: 2, Hooks: 15, BadRcpt: 15, Admin: true, Reimport: 4, Plans: false}
-	core.Register(&core.Scenario{ID: "C16", Level: "exploration", Run: runTwoChain(c16), Components: comp, Assumptions: append(append([]string{}, assume...), "the re-imported chain starts at the next height; the L2's cached L1 validator set and per-height history are not part of genesis (documented exclusions)"),
+	// one run in three is a single-chain history with the broader message mix of the L1 / L2 worlds (several
+	// bridges, long output logs, validator and parameter traffic), restarted from exported genesis at a high rate
+	c16l1 := &l1Profile{Prop: "C16", Reimport: 10, Blocks: [2]int{12, 50}, MaxTx: 5, Crash: 3, Periods: stdPeriods, RegFee: true,
+		W: map[string]int{"burst": 6, "create": 8, "deposit": 20, "propose": 25, "delete": 8, "claim": 25, "updProposer": 3, "updChallenger": 3, "batchInfo": 4, "metadata": 2,
+			"oracleCfg": 1, "params": 1, "recordBatch": 2, "send": 3, "multi": 5},
+		NonTriv: func(w *l1World) bool { return w.r.Faults["restart-from-exported-genesis.L1"] >= 1 && len(w.m.Bridges) >= 1 }}
+	c16l2 := &l2Profile{Prop: "C16", Reimport: 10, Blocks: [2]int{12, 50}, MaxTx: 5, Crash: 3, Hooks: 15, BadRcpt: 15,
+		W:       map[string]int{"relay": 30, "relaybatch": 4, "withdraw": 15, "send": 6, "addval": 12, "rmval": 8, "params": 10, "spend": 3, "bridgeinfo": 6, "exec": 8},
+		NonTriv: func(w *l2World) bool { return w.r.Faults["restart-from-exported-genesis.L2"] >= 1 }}
+	c16tc, c16a, c16b := runTwoChain(c16), runL1(c16l1), runL2(c16l2)
+	runC16 := func(r *core.Run) *core.Violation {
+		switch r.Intn(6) {
+		case 0:
+			r.Probe("genesis.single-chain-l1")
+			return c16a(r)
+		case 1:
+			r.Probe("genesis.single-chain-l2")
+			return c16b(r)
+		}
+		v := c16tc(r)
+		if r.Faults["restart-from-exported-genesis.L1"]+r.Faults["restart-from-exported-genesis.L2"] == 0 {
+			r.NonTriv = false
+		}
+		return v
+	}
+	core.Register(&core.Scenario{ID: "C16", Level: "exploration", Run: runC16, Components: comp, Assumptions: append(append([]string{}, assume...), "the re-imported chain starts at the next height; the L2's cached L1 validator set and per-height history are not part of genesis (documented exclusions)"),
 		Rule: "random two-chain histories with all message types (several bridges, deleted and re-proposed outputs, refunded deposits, removed validators, several batch-info generations, parameter changes) in which either chain is, at scheduler-chosen points and repeatedly, exported, validated and re-initialised on a fresh node at the next height; oracle: the second export is byte-identical per module, the L2's InitChain validator updates equal the bonded set, and the run continues on the re-imported node with the lock-step model still attached, so every later response, event and query must equal what the original chain would have produced (after a re-import every model deviation counts); non-trivial = >=2 deposits, >=1 withdrawal, >=1 successful claim",
 		QuickRuns: 1000, QuickSecs: 75, ThoroughRuns: 15000, ThoroughSecs: 800,
 		RequiredProbes: []string{"drain.completed", "e2e.claim-succeeded"}})
